@@ -5,10 +5,12 @@ import (
 	"flag"
 	"fmt"
 	"os"
+	"path/filepath"
 
 	"k8s.io/klog/v2"
 
 	"verifharness/engines"
+	"verifharness/translate"
 )
 
 func main() {
@@ -17,6 +19,30 @@ func main() {
 		os.Exit(2)
 	}
 	name := os.Args[1]
+	if name == "translate" {
+		tfs := flag.NewFlagSet("translate", flag.ExitOnError)
+		repo := tfs.String("repo", "/repo", "source tree")
+		out := tfs.String("out", "", "directory for the generated .v files")
+		_ = tfs.Parse(os.Args[2:])
+		func() {
+			defer func() {
+				if p := recover(); p != nil {
+					if r, ok := p.(translate.Refusal); ok {
+						fmt.Println("TRANSLATOR REFUSES:", string(r))
+						os.Exit(2)
+					}
+					panic(p)
+				}
+			}()
+			text := translate.TaskTables(*repo)
+			if err := os.WriteFile(filepath.Join(*out, "TaskTables.v"), []byte(text), 0o644); err != nil {
+				fmt.Println("ERROR", err)
+				os.Exit(3)
+			}
+			fmt.Println("generated", filepath.Join(*out, "TaskTables.v"))
+		}()
+		return
+	}
 	fs := flag.NewFlagSet(name, flag.ExitOnError)
 	seed := fs.Int64("seed", 1, "PRNG seed")
 	n := fs.Int("n", 100, "number of generated cases")
